@@ -30,7 +30,8 @@ Check(r) ==
               ELSE IF Len(ws) > Len(r.locs) THEN "more-windows-than-locations"
               ELSE IF Len(ws) < Len(r.locs) THEN
                    (* the string entry points have the whole text: every located place must show its line *)
-                   (IF r.entry # "reader" /\ \A k \in 1..Len(r.locs) : r.locs[k].line <= Len(ls) /\ r.locs[k].col <= Len(ls[r.locs[k].line]) + 1
+                   (* (an empty text has no line to show) *)
+                   (IF r.entry # "reader" /\ r.text # <<>> /\ \A k \in 1..Len(r.locs) : r.locs[k].line <= Len(ls) /\ r.locs[k].col <= Len(ls[r.locs[k].line]) + 1
                     THEN (IF HasLoneCR(r.text) THEN "lone-cr:" ELSE "") \o "no-snippet-for-a-located-error" ELSE "ok")
               ELSE LET vs == [k \in 1..Len(ws) |->
                                  LET w == SubSeq(r.out, ws[k], WinEnd(r.out, ws[k])) IN
@@ -43,7 +44,7 @@ Check(r) ==
          ELSE IF \E i \in 1..Len(r.out) : ~Clean(r.out[i].raw) THEN "control-character-in-report"
          ELSE IF r.locs # <<>> /\ r.locs[1].off < Len(r.text) /\ r.labels = <<>> THEN "located-error-without-label"
          (* the first label covers exactly the characters the location spans (at least one) *)
-         ELSE IF r.locs # <<>> /\ r.labels # <<>> /\ ~SanEq(r.labels[1].txt, SubSeq(r.text, r.locs[1].off + 1, r.locs[1].off + (IF r.locs[1].len = 0 THEN 1 ELSE r.locs[1].len)))
+         ELSE IF r.locs # <<>> /\ r.labels # <<>> /\ r.locs[1].off < Len(r.text) /\ ~SanEq(r.labels[1].txt, SubSeq(r.text, r.locs[1].off + 1, r.locs[1].off + (IF r.locs[1].len = 0 THEN 1 ELSE r.locs[1].len)))
               THEN "label-not-at-the-location"
          ELSE "ok"
     [] OTHER -> "ok"
